@@ -152,6 +152,10 @@ def run(ctx):
                 for opt in ([], ["-Dsighash,signing,segwit,taproot"]):
                     tj.append((list(opt) + ["--tx=" + txh, "--txin=" + inh], mode, "\n" if mode[2] == "stdin" else "", {}))
                     tl.append("SPEND %s %s -1 %d 0 - 0" % (txh.encode().hex(), inh.encode().hex(), R.STD))
+    # two scripts in one run (a scriptSig with operations of its own, then the scriptPubKey): the limits are per script
+    for (k, n) in ((1, 201), (20, 190), (1, 200), (0, 201), (2, 202), (201, 201)):
+        tx_, ftx_ = S.custom(rnd, bytes([0x61]) * n, bytes([0x51]) + bytes([0x61]) * k)
+        pairs.append((P.ser_tx(tx_).hex(), P.ser_tx(ftx_).hex()))
     for (txh, inh) in pairs:
         for mode in MODES:
             for opt in (OPTS if not quick else [OPTS[0], OPTS[3], OPTS[5]]):
